@@ -181,6 +181,15 @@ func RunWaits(r *common.Run) {
 	runWake(r, true)
 	r.Mark("case ibb-wake 2")
 	runStale(r)
+	// several goroutines blocked in Read when the stream ends
+	nr := 0
+	for k := 2; k <= 4; k++ {
+		for _, ev := range []string{"c", "C", "p,c", "p,C"} {
+			r.Mark("case ibb-readers %d", nr)
+			nr++
+			runReaders(r, k, ev)
+		}
+	}
 	for i, f := range []string{"none", "flush", "send", "reply", "deadline"} {
 		r.Mark("case ibb-close-fail %d", i)
 		runCloseFail(r, f, false)
@@ -200,6 +209,11 @@ func RunWaits(r *common.Run) {
 	}
 	r.Mark("case ibb-late-replies")
 	runLateReplies(r)
+	// listener: Accept / Expect waits, also an Expect that has given up before its stream arrives
+	for i, c := range []string{"L,A,O", "L,O,A", "L,E,O", "L,E,X,O,A", "L,A,E,O,O", "L,E,K,O", "L,A,K,O"} {
+		r.Mark("case ibb-listener %d", i)
+		runListener(r, strings.Split(c, ","), "listener-corpus")
+	}
 }
 
 // Run is the C15 runner.
@@ -226,11 +240,20 @@ func Run(r *common.Run) error {
 				}
 				runWake(r, false)
 				runWake(r, true)
+			case "readers":
+				k, _ := strconv.Atoi(f[2])
+				for _, ev := range []string{"c", "C"} {
+					e := ev
+					if strings.HasPrefix(f[3], "P") {
+						e = "p," + ev
+					}
+					runReaders(r, k, e)
+				}
 			case "lsn":
 				ops := strings.Split(f[2], ",")
 				for i := range ops {
-					if ops[i][0] == 'O' {
-						ops[i] = "O"
+					if ops[i][0] == 'O' || ops[i][0] == 'E' {
+						ops[i] = ops[i][:1]
 					}
 				}
 				runListener(r, ops, "replay")
@@ -282,6 +305,14 @@ func Run(r *common.Run) error {
 	runWake(r, true)
 	r.Mark("case wake 2")
 	runStale(r)
+	nrd := 0
+	for k := 2; k <= 4; k++ {
+		for _, ev := range []string{"c", "C", "p,c", "p,C"} {
+			r.Mark("case readers %d", nrd)
+			nrd++
+			runReaders(r, k, ev)
+		}
+	}
 	for i, f := range []string{"none", "flush", "send", "reply", "deadline"} {
 		r.Mark("case close-fail %d", i)
 		runCloseFail(r, f, false)
@@ -310,7 +341,8 @@ func Run(r *common.Run) error {
 		}
 	}
 	// listener life cycle x incoming open requests
-	for i, c := range []string{"O", "L,A,O", "L,O,A", "L,K,O", "L,A,K,O", "L,O,A,K,O", "L,K,L,O,A", "L,K,A,O,L,A,O", "L,A,A,O,O,K,O", "L,O,A,O,A,K,A,O"} {
+	for i, c := range []string{"O", "L,A,O", "L,O,A", "L,K,O", "L,A,K,O", "L,O,A,K,O", "L,K,L,O,A", "L,K,A,O,L,A,O", "L,A,A,O,O,K,O", "L,O,A,O,A,K,A,O",
+		"L,E,O", "L,E,X,O,A", "L,A,E,O,O", "L,E,K,O", "L,E,X,E,O", "L,E,E,O", "K,E", "L,K,E,L,E,X,O,A"} {
 		r.Mark("case listener %d", i)
 		runListener(r, strings.Split(c, ","), "listener-corpus")
 	}
@@ -319,7 +351,7 @@ func Run(r *common.Run) error {
 		n := 2 + r.Rnd.Intn(9)
 		ops := make([]string, n)
 		for k := range ops {
-			ops[k] = []string{"L", "L", "K", "A", "A", "O", "O", "O"}[r.Rnd.Intn(8)]
+			ops[k] = []string{"L", "L", "K", "A", "A", "O", "O", "O", "E", "E", "X"}[r.Rnd.Intn(11)]
 		}
 		runListener(r, ops, "listener-random")
 	}
